@@ -322,6 +322,103 @@ theorem parseGradient_type (css : List Char) (g : Gradient) (h : parseGradient c
           · simp at h; rw [← h]; exact hty
         · simp at h; rw [← h]; exact hty
 
+/-! ## the parameters of `gradient_svg_safe` for non-`deg` directions and real IDs -/
+
+def IsPct (v : List Char) : Prop := v = pct "0%" ∨ v = pct "50%" ∨ v = pct "100%"
+
+theorem isPct_plain {v : List Char} (h : IsPct v) : plainVal v = true := by
+  rcases h with h | h | h <;> subst h <;> decide
+
+def AllPct (q : List Char × List Char × List Char × List Char) : Prop :=
+  IsPct q.1 ∧ IsPct q.2.1 ∧ IsPct q.2.2.1 ∧ IsPct q.2.2.2
+
+/-- `parseLinearGradientDirection` without `deg` only ever yields 0%, 50% or 100% -/
+theorem linearCoords_pct (d : List Char) (q : List Char × List Char × List Char × List Char)
+    (h : linearCoords d = some q) : AllPct q := by
+  have p0 : IsPct (pct "0%") := Or.inl rfl
+  have p50 : IsPct (pct "50%") := Or.inr (Or.inl rfl)
+  have p100 : IsPct (pct "100%") := Or.inr (Or.inr rfl)
+  unfold linearCoords at h
+  simp only at h
+  split at h
+  · -- `to …`: the fold keeps every component in {0%, 50%, 100%}
+    have inv : ∀ (parts : List (List Char)) (acc : List Char × List Char × List Char × List Char), AllPct acc →
+        AllPct (parts.foldl (fun (acc : List Char × List Char × List Char × List Char) p =>
+          if p == "left".toList then (pct "100%", acc.2.1, pct "0%", acc.2.2.2)
+          else if p == "right".toList then (pct "0%", acc.2.1, pct "100%", acc.2.2.2)
+          else if p == "top".toList then (acc.1, pct "100%", acc.2.2.1, pct "0%")
+          else if p == "bottom".toList then (acc.1, pct "0%", acc.2.2.1, pct "100%")
+          else acc) acc) := by
+      intro parts
+      induction parts with
+      | nil => intro acc ha; exact ha
+      | cons p ps ih =>
+        intro acc ha
+        simp only [List.foldl_cons]
+        apply ih
+        obtain ⟨a1, a2, a3, a4⟩ := ha
+        split
+        · exact ⟨p100, a2, p0, a4⟩
+        · split
+          · exact ⟨p0, a2, p100, a4⟩
+          · split
+            · exact ⟨a1, p100, a3, p0⟩
+            · split
+              · exact ⟨a1, p0, a3, p100⟩
+              · exact ⟨a1, a2, a3, a4⟩
+    simp only [Option.some.injEq] at h
+    rw [← h]
+    exact inv _ _ ⟨p50, p50, p50, p50⟩
+  · split at h
+    · exact absurd h (by simp)
+    · simp only [Option.some.injEq] at h
+      rw [← h]
+      exact ⟨p0, p0, p0, p100⟩
+
+/-- `gradient_svg_safe` for every gradient `ParseGradient` accepts whose direction is not an angle, and any ID made of
+    characters other than `"`, `<`, `&` (the real one is `grad-` + 40 hex digits) -/
+theorem parsed_gradient_svg_safe (css id : List Char) (g : Gradient) (q : List Char × List Char × List Char × List Char)
+    (hp : parseGradient css = some g) (hq : linearCoords g.direction = some q) (hid : plainVal id = true) :
+    wf (gradientToSVG g id q) = true ∧ shapeOk g (events (gradientToSVG g id q)) = none := by
+  obtain ⟨a1, a2, a3, a4⟩ := linearCoords_pct _ _ hq
+  obtain ⟨x1, y1, x2, y2⟩ := q
+  exact gradient_svg_safe g id x1 y1 x2 y2 (parseGradient_type css g hp) hid (isPct_plain a1) (isPct_plain a2)
+    (isPct_plain a3) (isPct_plain a4)
+
+/-! ## the escaped form denotes the user's string -/
+
+theorem decode_fold_append (st : Option (List Char) × List Char) (a b : List Char) :
+    (a ++ b).foldl decodeStep st = b.foldl decodeStep (a.foldl decodeStep st) := by simp [List.foldl_append]
+
+/-- reading one escaped rune outside a reference yields the rune itself (U+FFFD for a non-XML character) -/
+theorem decode_escXml (c : Char) (acc : List Char) :
+    (escXml c).foldl decodeStep (none, acc) = (none, (if inCharRange c then c else repl) :: acc) := by
+  by_cases h1 : c = '"'; · subst h1; rfl
+  by_cases h2 : c = '\''; · subst h2; rfl
+  by_cases h3 : c = '&'; · subst h3; rfl
+  by_cases h4 : c = '<'; · subst h4; rfl
+  by_cases h5 : c = '>'; · subst h5; rfl
+  by_cases h6 : c = '\t'; · subst h6; rfl
+  by_cases h7 : c = '\n'; · subst h7; rfl
+  by_cases h8 : c = '\r'; · subst h8; rfl
+  have hr : repl ≠ '&' := by decide
+  by_cases h9 : inCharRange c = true
+  · simp [escXml, h1, h2, h3, h4, h5, h6, h7, h8, h9, decodeStep]
+  · simp [escXml, h1, h2, h3, h4, h5, h6, h7, h8, h9, decodeStep, hr]
+
+/-- **round trip**: resolving the references of `escapeText s` gives `s` back, with characters XML cannot carry
+    replaced by U+FFFD — an escaped attribute value / text node denotes exactly the user's string -/
+theorem decode_escapeText (s : List Char) : decodeRefs (escapeText s) = sanitize s := by
+  have h : ∀ (s acc : List Char), (escapeText s).foldl decodeStep (none, acc) = (none, (sanitize s).reverse ++ acc) := by
+    intro s
+    induction s with
+    | nil => intro acc; rfl
+    | cons c s ih =>
+      intro acc
+      rw [escapeText_cons, decode_fold_append, decode_escXml, ih]
+      simp [sanitize]
+  simp [decodeRefs, h s []]
+
 /-- the witness of DESIGN §7: `fill: 'linear-gradient(red 0"><script>alert(1)</script><stop, blue)'` -/
 def cxGradCss : List Char := "linear-gradient(red 0\"><script>alert(1)</script><stop, blue)".toList
 
